@@ -36,3 +36,6 @@ def run(ctx, rep):
     more6.rule_precision_family(mod, rep, floor=100, sel=lambda f: _re.match(r"p[sdcz]gstrf", f.name) is not None)
     from ..rules import more6 as _m6
     _m6.rule_pivot_column(mod, rep)
+    from ..rules import more6 as _m6c
+    _m6c.rule_prune_split(mod, rep)
+    _m6c.rule_dfs_busy(mod, rep)
